@@ -186,6 +186,16 @@ def evaluate(case):
                     got_sel = sorted(set(an.get(**{col: v}).index.get_level_values(0)))
                     if got_sel != want:
                         return f"selection {col}={v!r} returns row pairs {got_sel}, the pairs carrying that value are {want}", seen
+            # selection by distance range: a row pair is kept when one of its members lies in [lo, hi)
+            import math as _m
+            for lo, hi in ((0.0, 6.0), (4.0, 9.0), (8.0, 40.0)):
+                def in_rng(k, side):
+                    v = full.loc[(k, side), "distance"]
+                    return v is not None and not (isinstance(v, float) and _m.isnan(v)) and lo <= v < hi
+                want = [k for k in keys if in_rng(k, "ground_truth") or in_rng(k, "estimation")]
+                got_sel = sorted(set(an.filter_by_distance((lo, hi)).index.get_level_values(0)))
+                if got_sel != want:
+                    return f"selection distance in [{lo}, {hi}) returns row pairs {got_sel}, the pairs with a member in that range are {want}", seen
             for si in range(len(case["scenes"])):
                 sel = an.get(scene=si)
                 n_tp = an.get_num_tp(df=sel) if len(sel) else 0
